@@ -115,6 +115,7 @@ class Result:
         self.log = []
         self.steps = 0
         self.step_profiles = []  # (profile_in, prev_round_number, profile_out)
+        self.step_in = []  # (profile_in, prev_state) on entry of every stored round
         self.stdout = ""
         self.obj = None  # the election object as seen by _run_step (also when __init__ raised)
         self.partial = False
@@ -143,6 +144,8 @@ def run(name, profile, cfg, rng=None, record_steps=False, bound=None):
             counter[0] += 1
             if counter[0] > limit:
                 raise NoProgress(f"more than {limit} rounds for {n} candidates")
+        if record_steps and store_states:
+            res.step_in.append((prof, prev_state))
         out = orig(self, prof, prev_state, store_states)
         if record_steps and store_states:
             res.step_profiles.append((prof, prev_state.round_number, out))
